@@ -195,7 +195,80 @@ theorem C10_prealloc_counterexample :
 theorem C10_prealloc_counterexample_debug : MemSys.init true 10 1024 8 = .panic .prealloc := by
   decide
 
+/-! ### C10 for `TransformStream::write` (retained input) -/
+
+/-- `TransformStream::new` with a legal preallocation. -/
+theorem ts_new_ok (debug : Bool) {M prealloc : Nat} (hp : prealloc ≤ M) (hp2 : prealloc ≤ isizeMax) :
+    TS.new debug M prealloc =
+      .ok { lim := { usage := prealloc, max := M }, buffer := { cap := prealloc, data := [] },
+            hasBufferedData := false } := by
+  have hs : isizeMax = 9223372036854775807 := rfl
+  have hu : usizeMax = 18446744073709551615 := rfl
+  have h1 : ¬ usizeMax < prealloc := by omega
+  have h2 : ¬ M < prealloc := by omega
+  have h3 : ¬ isizeMax < prealloc := by omega
+  simp [TS.new, Arena.new, Limiter.new, Limiter.increase, h1, h2, h3]
+
+/-- **C10_write_retention.** For every sequence of writes `ws` that all succeed, whatever the parser
+    answers (`consumed`, only assumed `≤` the chunk length): bytes in = bytes handed to the sink +
+    bytes retained, the retained bytes are within the limit `M`, and so is the buffer's capacity.
+    (`ws` is arbitrary, so this holds after each successful write.) -/
+theorem C10_write_retention {debug : Bool} {M prealloc : Nat} {t0 : TS}
+    (hnew : TS.new debug M prealloc = .ok t0) (hp : prealloc ≤ M) (hp2 : prealloc ≤ isizeMax)
+    (consumed : Bytes → Nat) (hc : ∀ c, consumed c ≤ c.length)
+    (ws : List Bytes) (t' : TS) (out : Nat)
+    (hlast : (t0.run consumed ws 0).getLast? = some (.ok, t', out)) :
+    t'.retained + out = (ws.map List.length).sum ∧ t'.retained ≤ M ∧ t'.buffer.cap ≤ M ∧
+    t'.buffer.cap ≤ t'.lim.usage := by
+  rw [ts_new_ok debug hp hp2] at hnew
+  cases hnew
+  have hi : TSInv M ⟨⟨prealloc, M⟩, ⟨prealloc, []⟩, false⟩ :=
+    ⟨by simp [Arena.len], Nat.le_refl _, hp, rfl⟩
+  obtain ⟨i, c, r⟩ := TS.run_last_ok hc ws _ 0 t' out hi hlast
+  refine ⟨?_, r, i.held, i.charged⟩
+  simpa [TS.retained, TS.pending] using c
+
+/-- One write, any state satisfying the invariant: the pending bytes afterwards are exactly the
+    unconsumed tail of (pending ++ data). -/
+theorem C10_write_pending {M : Nat} {t t' : TS} {data : Bytes} {consumed : Bytes → Nat}
+    (hi : TSInv M t) (hc : ∀ c, consumed c ≤ c.length) (h : t.write data consumed = .ok t') :
+    TSInv M t' ∧ t'.pending = (t.pending ++ data).drop (consumed (t.pending ++ data)) ∧
+    t'.retained ≤ M :=
+  TS.write_ok hi hc h
+
+/-- `write` never triggers the range panic of `Arena::shift`, in any state, for any parser answer. -/
+theorem C10_write_no_shift_panic (t : TS) (data : Bytes) (consumed : Bytes → Nat) :
+    t.write data consumed ≠ .panic .shiftRange :=
+  TS.write_no_shift_panic
+
+/-- The instance lane `memts` executes: the tag-scanner oracle is a legal parser answer, so
+    `C10_write_retention` applies to `TS.run … scanConsumed`. -/
+theorem C10_write_retention_scan {debug : Bool} {M prealloc : Nat} {t0 : TS}
+    (hnew : TS.new debug M prealloc = .ok t0) (hp : prealloc ≤ M) (hp2 : prealloc ≤ isizeMax)
+    (ws : List Bytes) (t' : TS) (out : Nat)
+    (hlast : (t0.run scanConsumed ws 0).getLast? = some (.ok, t', out)) :
+    t'.retained + out = (ws.map List.length).sum ∧ t'.retained ≤ M :=
+  let h := C10_write_retention hnew hp hp2 scanConsumed scanConsumed_le ws t' out hlast
+  ⟨h.1, h.2.1⟩
+
 /-! ### non-vacuity -/
+
+/-- `<aa` is retained across writes (init_with, append + shift 0), released by `>`; limit 6 -/
+example :
+    TS.new true 6 2 = .ok ⟨⟨2, 6⟩, ⟨2, []⟩, false⟩ ∧
+    (⟨⟨2, 6⟩, ⟨2, []⟩, false⟩ : TS).run scanConsumed [[97, 60, 97, 97], [97, 97], [62, 97]] 0 =
+      [(.ok, ⟨⟨3, 6⟩, ⟨3, [60, 97, 97]⟩, true⟩, 1),
+       (.ok, ⟨⟨5, 6⟩, ⟨5, [60, 97, 97, 97, 97]⟩, true⟩, 1),
+       (.err 2, ⟨⟨7, 6⟩, ⟨5, [60, 97, 97, 97, 97]⟩, true⟩, 1)] := by
+  decide
+
+example :
+    (⟨⟨2, 7⟩, ⟨2, []⟩, false⟩ : TS).run scanConsumed [[97, 60, 97, 97], [97, 97], [62, 97]] 0 =
+      [(.ok, ⟨⟨3, 7⟩, ⟨3, [60, 97, 97]⟩, true⟩, 1),
+       (.ok, ⟨⟨5, 7⟩, ⟨5, [60, 97, 97, 97, 97]⟩, true⟩, 1),
+       (.ok, ⟨⟨7, 7⟩, ⟨7, [60, 97, 97, 97, 97, 62, 97]⟩, false⟩, 8)] := by
+  decide
+
 
 /-- a run with a failure in the middle: the failed charge (128) stays, later ops still run -/
 example :
